@@ -283,8 +283,13 @@ impl Ctx {
     pub fn report(&self, f: Failure) -> bool {
         if self.is_known_open(&f.signature) {
             let mut kh = self.known_hits.lock().unwrap();
+            let first = !kh.contains_key(&f.signature);
             let e = kh.entry(f.signature.clone()).or_insert((0, f.msg.clone()));
             e.0 += 1;
+            if first && std::env::var("VERIF_SAVE_KNOWN").is_ok() {
+                let p = self.write_replay(&f);
+                eprintln!("saved known-finding case {} -> {}", f.signature, p);
+            }
             false
         } else {
             let mut v = self.violations.lock().unwrap();
